@@ -40,12 +40,14 @@ RULE = ("cases = (device LPF|BPF, order 1..8, cut-off/fs in (0.01,0.45) incl. bo
         "(a third of the BPF cases, a ninth of the LPF cases); a third of the cases draw the absolute cut-off from {1,2,4} GHz so that the same (BW, order) "
         "recurs in one process under different sampling rates) + histories (same BW and order under 3 sampling rates in sequence and back, "
         "via gv or LPF's fs=, each call sent to the model and compared with a freshly designed scipy reference) "
+        "+ long records (65537, 100000, 131072 samples; LPF and BPF; 1 and 2 polarisations; Gaussian pulses at different instants on every "
+        "row of signal and noise; the WHOLE record goes through the Lean model and the symmetric-pulse / zero-delay clause is checked per row) "
         "+ tone / pulse / retH / too-short records; non-trivial = filter applied to a "
         "non-constant record longer than the padding; distinct by all parameters and the data seed")
 PARTIAL = [
     "-6.0 dB at cut-off (BW for LPF, BW/2 either side of the carrier for BPF): depends on scipy's Bessel design (norm='mag'); oracle: tone at the cut-off fitted in the central third of a long record, |att-6.0206 dB| <= 0.05 dB",
     "attenuation grows monotonically with frequency: oracle on 7 tones per case (gain non-increasing within 1e-6)",
-    "zero delay / symmetric pulse response: oracle (Gaussian pulse, mirror error <= 1e-9 of the peak; tone phase <= 1e-5 rad)",
+    "zero delay / symmetric pulse response: oracle (Gaussian pulse, mirror error <= 1e-9 of the peak; tone phase <= 1e-5 rad), also on every signal/noise row of records of 65537, 100000 and 131072 samples; those long records are ALSO tied to the Lean model in full (the whole record is filtered by the model and compared sample by sample, no prefix/decimation)",
     "never increases the power of a stationary tone: oracle (fitted gain <= 1+1e-6 on every tone)",
     "retH: its length, fftshift layout, DC value, Hermitian symmetry and its meaning for the recursion (steady-state exponential scaled by H per pass, |H|^2 forward-backward) ARE theorems and the Float model is compared with the returned array; what stays oracle-only is |H(cut-off)| = 1/sqrt2 (Bessel design) and the agreement of |H|^2 with the two-pass gain MEASURED on the real filter with its real (DC steady-state) initial conditions and edges",
     "scipy.signal.bessel / sosfilt_zi / the compiled _sosfilt loop are trusted to be what the model's parameters and recursion say; Float rounding is outside the theorems",
@@ -172,7 +174,20 @@ def gen_cases(rng, tier):
                               "sps": seq[0][0], "R": seq[0][1], "n": rng.randint(_edge(order) + 1, 90), "npol": rng.choice([1, 2]) if hdev == "bpf" else 1,
                               "noise": rng.random() < 0.5, "scale": 1.0, "seed": rng.getrandbits(32)})
     rng.shuffle(hist)
-    return hist + cases
+    # long records (longer than any plausible internal block size: 2^16+1, 1e5, 2^17), 1 and 2 polarisations, LPF and BPF:
+    # full model tie (the Lean model filters the whole record) + zero-delay / symmetric-pulse clause on every row and component
+    longs = []
+    plan = [(65537, "bpf", 2, False), (100000, "bpf", 1, True), (131072, "bpf", 2, False),
+            (65537, "lpf", 1, True), (100000, "lpf", 1, False), (131072, "lpf", 1, False)]
+    for rnd in range(1 if quick else 3):
+        for n, ldev, npol, noise in plan:
+            sps, R = rng.choice(GVS)
+            longs.append({"kind": "long", "dev": ldev, "order": rng.randint(1, 8) if rnd else rng.choice([4, 4, 2, 7]),
+                          "fcn": 0.0625 if rnd == 0 and n == 65537 else _fcn(rng), "n": n, "npol": npol,
+                          "noise": noise if rnd == 0 else rng.random() < 0.4, "sps": sps, "R": R,
+                          "pos": [rng.uniform(0.2, 0.8) for _ in range(4)], "amp": rng.choice([1e-9, 1.0, 30.0]),
+                          "seed": rng.getrandbits(32)})
+    return hist + cases + longs
 
 
 # ------------------------------------------------------------------------------------------------ data
@@ -377,6 +392,8 @@ def run_impl(case):
                     _run_reth(case, fs, spy, res)
                 elif kind == "hist":
                     _run_hist(case, spy, res)
+                elif kind == "long":
+                    _run_long(case, devn, fs, spy, res)
                 else:
                     raise ValueError("unknown kind")
     except Timeout as e:
@@ -565,6 +582,55 @@ def _run_hist(case, spy, res):
         st["tone"] = {"fn": fcn, "g": abs(g), "ph": float(np.angle(g)), "resid": resid}
 
 
+def _long_width(case):
+    return max(1.5, 0.4 / case["fcn"])
+
+
+def _long_data(case):
+    """one Gaussian pulse per row (different instants), signal rows then noise rows; complex phase for BPF"""
+    n, npol = case["n"], case["npol"]
+    k = np.arange(n)
+    w = _long_width(case)
+    rows, centres = [], []
+    for i in range(2 * npol if case["noise"] else npol):
+        m = int(case["pos"][i] * n)
+        x = case["amp"] * (1 + 0.5 * i) * np.exp(-((k - m) / w) ** 2 / 2)
+        if case["dev"] == "bpf":
+            x = x * np.exp(1j * (0.9 + i))
+        rows.append(x)
+        centres.append(m)
+    sig = rows[0] if npol == 1 else np.array(rows[:2])
+    nz = None
+    if case["noise"]:
+        nz = rows[npol] if npol == 1 else np.array(rows[2:4])
+    return sig, nz, centres
+
+
+def _run_long(case, devn, fs, spy, res):
+    sig, nz, centres = _long_data(case)
+    bw = _bw(case, devn, fs)
+    try:
+        y = _call(devn, _mk(devn, sig, nz, case["npol"]), case, bw)
+    finally:
+        spy.on = False
+        res["params"], res["remarks"] = _params(spy)
+    res.update(status="ok", cls=type(y).__name__, shape=list(y.signal.shape), out=_pack(_rows(y.signal)),
+               out_noise=None if y.noise is None else _pack(_rows(y.noise)), has_noise_in=nz is not None)
+    outs = list(_rows(y.signal)) + ([] if y.noise is None else list(_rows(y.noise)))
+    pulses = []
+    w = _long_width(case)
+    for i, (m, yr) in enumerate(zip(centres, outs)):
+        if len(yr) != case["n"]:
+            continue
+        half = int(min(m, case["n"] - 1 - m, 60 * w + 200)) - 1
+        kk = np.arange(1, half)
+        peak = _maxabs(yr)
+        pulses.append({"row": i, "m": m, "argmax": int(np.argmax(np.abs(yr))), "peak": peak,
+                       "mirror": _maxabs(yr[m + kk] - yr[m - kk]) / peak if peak > 0 else float("nan")})
+    res["pulses"] = pulses
+    res["rows_expected"] = len(centres)
+
+
 def _run_pulse(case, devn, fs, spy, res):
     fc = case["fcn"]
     n = _tone_len(fc) | 1
@@ -655,6 +721,11 @@ def model_requests(case, res):
         for row, z in zip(p["sos"], p["zi"]):
             secs += [enc_f(row[0]), enc_f(row[1]), enc_f(row[2]), enc_f(row[4]), enc_f(row[5]), enc_f(z[0]), enc_f(z[1])]
         return [f"filter.reth {case['nr']} {' '.join(secs)}"]
+    if case["kind"] == "long":
+        if not res.get("params"):
+            return []
+        sig, nz, _ = _long_data(case)
+        return [_request(case["dev"], res["params"], sig, nz)]
     if case["kind"] not in ("lpf", "bpf", "short"):
         return []
     p = res.get("params")
@@ -769,9 +840,11 @@ def compare(case, res, reqs, replies):
         # in numpy): observed difference <= 1e-13, tolerance 1e-9 absolute
         return out + _cmp("retH", [m], _unpack(res["H"]), 1e-9)
     if not reqs:
-        if case["kind"] in ("lpf", "bpf", "short") and not p and res.get("status") != "timeout":
+        if case["kind"] in ("lpf", "bpf", "short", "long") and not p and res.get("status") != "timeout":
             out.append("no filter coefficients observed: the implementation did not reach scipy.signal")
         return out
+    if case["kind"] == "long":
+        return out + _compare_reply(case["dev"], res, replies[0], None, case["n"])
     # both sides execute the same IEEE operations in the same order (observed difference: 0); the tolerance 1e-12*scale*n only
     # leaves room for a differently compiled scipy (FMA contraction)
     s, _, _, _ = _data(case)
@@ -844,6 +917,21 @@ def oracle(case, res):
         return v
     if kind == "hist":
         return _oracle_hist(case, res)
+    if kind == "long":
+        n, npol = case["n"], case["npol"]
+        if res["shape"] != ([n] if npol == 1 else [2, n]) or res["has_noise_in"] != (res["out_noise"] is not None) \
+                or len(res["pulses"]) != res["rows_expected"]:
+            return [(f"C11:{devn}-long-length", f"length/layout not preserved on a record of {n} samples: shape {res['shape']}")]
+        for pz in res["pulses"]:
+            comp = "signal" if pz["row"] < npol else "noise"
+            where = f"{comp} row {pz['row'] % npol} of a {n}-sample record (order {case['order']}, cut-off {case['fcn']:.4f} fs)"
+            if not (pz["mirror"] <= 1e-9):
+                v.append((f"C11:{devn}-long-pulse-symmetry", f"{where}: response to a symmetric pulse centred at sample {pz['m']} is not "
+                                                            f"symmetric about it (mirror error {pz['mirror']:.3e} of the peak)"))
+            if pz["argmax"] != pz["m"]:
+                v.append((f"C11:{devn}-long-pulse-delay", f"{where}: pulse centred at sample {pz['m']} comes out peaking at {pz['argmax']} "
+                                                        f"(delay {pz['argmax'] - pz['m']:+d} samples)"))
+        return v
     if kind == "tone":
         fc = res.get("fcn", case["fcn"])
         rows = res["rows"]
@@ -945,6 +1033,8 @@ def features(case, res):
         f += [f"noise-level={case.get('nscale')}" if case["noise"] else "noise-level=none", f"hom={case.get('hom'):g}"]
     if kind == "tone":
         f.append(f"amp={case['amp']:g}")
+    if kind == "long":
+        f += [f"long-n={case['n']}", f"npol={case['npol']}", "noise" if case["noise"] else "no-noise"]
     if kind == "reth":
         f.append("retH-N-odd" if case["nr"] % 2 else "retH-N-even")
     if "wn" in case:
